@@ -96,9 +96,20 @@ func nativeRun(repo, verif string, dirFiles map[string][]string, h harnessInfo, 
 	// schedule control: instrumented copies of every file of the package (sync points, go statements)
 	instrumented := map[string]bool{}
 	if replayHasSchedule(replayPath) {
-		srcs, ierr := instrumentedSources(h.Dir)
-		if ierr != nil {
-			return "", ierr
+		srcs := map[string][]byte{}
+		var dirs []string
+		for d := range loadedPkgs {
+			dirs = append(dirs, d)
+		}
+		sort.Strings(dirs)
+		for _, d := range dirs {
+			one, ierr := instrumentedSources(d)
+			if ierr != nil {
+				return "", ierr
+			}
+			for k, v := range one {
+				srcs[k] = v
+			}
 		}
 		k := 0
 		for vpath, src := range srcs {
@@ -151,7 +162,7 @@ func nativeRun(repo, verif string, dirFiles map[string][]string, h harnessInfo, 
 	os.WriteFile(ovFile, ovData, 0o644)
 	ctx, cancel := context.WithTimeout(context.Background(), 180*time.Second)
 	defer cancel()
-	cmd := exec.CommandContext(ctx, "go", "test", "-tags", "verif", "-vet=off", "-count=1", "-run", "^TestVerifReplay$", "-v", "-overlay", ovFile, "./"+h.Dir)
+	cmd := exec.CommandContext(ctx, "go", "test", "-tags", "verif", "-vet=off", "-count=1", "-timeout", "60s", "-run", "^TestVerifReplay$", "-v", "-overlay", ovFile, "./"+h.Dir)
 	cmd.Dir = repo
 	cmd.Env = append(os.Environ(), "VERIF_REPLAY="+replayPath, "CGO_ENABLED=0", "GOFLAGS=-mod=mod", "GOPROXY=off", "GOSUMDB=off", "GOTOOLCHAIN=local")
 	out, err := cmd.CombinedOutput()
